@@ -520,7 +520,7 @@ func guardedStructs(p *Program) map[string]string {
 			for i := 0; i < st.NumFields(); i++ {
 				ft := typeName(st.Field(i).Type())
 				if ft == "sync.Mutex" || ft == "*sync.Mutex" || ft == "sync.RWMutex" || ft == "*sync.RWMutex" {
-					out[relPkgName(pk.Types)+"."+n] = st.Field(i).Name()
+					out[relPkgName(pk.Types)+"."+n] = fieldNameOf(st.Field(i))
 					break
 				}
 			}
@@ -544,7 +544,7 @@ func fieldAccesses(fn *ssa.Function, owner, mutexField string, entry heldSet) []
 			if o != owner || st == nil {
 				continue
 			}
-			name := st.Field(fa.Field).Name()
+			name := fieldNameOf(st.Field(fa.Field))
 			if name == mutexField {
 				continue
 			}
